@@ -25,6 +25,39 @@ default_path_config = 'local'
 
 #########################################################
 # Config for FindInAll
+_finders_by_type = {}  # type: ignore
+
+
+def _get_finders_by_type():
+    """
+    Creates the Finders once (lazily: spil cannot be imported while this config is loaded).
+
+    FindInAll groups the typed searches of one search by Finder instance:
+    searches served by the same source must get the same Finder object,
+    or a "last" search (">") unfolding into multiple typed searches is answered once per typed search.
+    """
+    if not _finders_by_type:
+        from spil_sid_conf import projects, asset_types  # type: ignore
+        from spil import FindInConstants, FindInPaths
+
+        finder_paths = FindInPaths()
+        finder_projects = FindInConstants("project", projects)
+        finder_types = FindInConstants("type", ["a", "s"], parent_source=finder_projects)
+        finder_assettypes = FindInConstants('assettype', asset_types, parent_source=finder_types)
+        finder_asset_states = FindInConstants('state', ["w", "p"], parent_source=finder_paths)
+
+        _finders_by_type.update({
+            'project': finder_projects,
+            'asset': finder_types,
+            'shot': finder_types,
+            'asset__assettype': finder_assettypes,
+            'asset__state': finder_asset_states,
+            'shot__state': finder_asset_states,
+            'default': finder_paths
+        })
+    return _finders_by_type
+
+
 def get_finder_for(search_sid, config=None):  # get finder by Sid and optional config
     """
     Configuration used by FindInAll, to define which Finder is used for a given Search Sid.
@@ -43,24 +76,9 @@ def get_finder_for(search_sid, config=None):  # get finder by Sid and optional c
         A Finder instance for this search.
     """
     # type: ignore
-    from spil_sid_conf import projects, asset_types  # type: ignore
-    from spil import FindInConstants, FindInPaths, Finder
+    from spil import Finder
 
-    finder_paths = FindInPaths()
-    finder_projects = FindInConstants("project", projects)
-    finder_types = FindInConstants("type", ["a", "s"], parent_source=finder_projects)
-    finder_assettypes = FindInConstants('assettype', asset_types, parent_source=finder_types)
-    finder_asset_states = FindInConstants('state', ["w", "p"], parent_source=finder_paths)
-
-    finders_by_type = {
-        'project': finder_projects,
-        'asset': finder_types,
-        'shot': finder_types,
-        'asset__assettype': finder_assettypes,
-        'asset__state': finder_asset_states,
-        'shot__state': finder_asset_states,
-        'default': finder_paths
-    }
+    finders_by_type = _get_finders_by_type()
 
     finder: Finder = finders_by_type.get(search_sid.type, {}) or finders_by_type.get('default', {})
     if finder:
